@@ -184,6 +184,18 @@ def check_case(ctx, case):
     loaded = []
     for k in kinds:
         block, pres, weight = presentation(rng, k, groups)
+        for n in pres:
+            # the documented default reference temperature may be left out
+            # (only with temperatures written in plain K: 29815 cK converts
+            # to 298.15000000000003 K, and a range starting there would
+            # -- correctly -- exclude the exact default 298.15 K)
+            tp = pres[n].get('T', ('unit', 'K', 1.0))
+            plain_k = (tp[0] == 'unit' and tp[2] == 1.0) or \
+                (tp[0] == 'bare' and tp[1] == 1.0)
+            if groups[n]['T_ref'] == 298.15 and plain_k and \
+                    rng.random() < 0.5:
+                pres[n] = dict(pres[n], omit_T_ref=True)
+                ctx.count('groups_written_without_T_ref')
         text = libfiles.render_library(groups, units=block, pres=pres)
         o = load_text(text)
         ctx.evals()
